@@ -321,7 +321,10 @@ func c03(c *core.Ctx, r *core.Report) {
 			tDesc := an.D().Of(tV.V)
 			sameState := false
 			if fa, ok := tV.V.(*ssa.FieldAddr); ok {
-				sameState = (an.FV{V: fa.X, F: tV.F}).Resolve(nil).V == stateV
+				sameState = unspill((an.FV{V: fa.X, F: tV.F}).Resolve(nil).V) == unspill(stateV)
+			}
+			if f, ok := tV.V.(*ssa.Field); ok {
+				sameState = unspill((an.FV{V: f.X, F: tV.F}).Resolve(nil).V) == unspill(stateV)
 			}
 			if !sameState {
 				r.Violation(key, an.Pos(c, reset.Instr), "Reset is applied to %s but the runner receives %s", tDesc, stateDesc)
@@ -562,4 +565,27 @@ func errNilGuard(g an.Guard, next *ssa.Call) bool {
 		return false
 	}
 	return (bo.Op == token.NEQ && !g.Polarity) || (bo.Op == token.EQL && g.Polarity)
+}
+
+// unspill: a struct handled by value lives in a local the compiler copies the parameter (or value) into; the local
+// stands for what was copied.
+func unspill(v ssa.Value) ssa.Value {
+	for i := 0; i < 4; i++ {
+		switch x := v.(type) {
+		case *ssa.Alloc:
+			sts := an.StoresTo(x)
+			if len(sts) != 1 {
+				return v
+			}
+			v = an.Strip(sts[0].Val)
+		case *ssa.UnOp:
+			if x.Op != token.MUL {
+				return v
+			}
+			v = x.X
+		default:
+			return v
+		}
+	}
+	return v
 }
